@@ -34,6 +34,18 @@ type c02Plan struct {
 	// (write, sync, truncate, delete) of the selected blocks: crash points
 	// inside statements and inside COMMIT.
 	VFS bool `json:"vfs,omitempty"`
+	// DiskFail (only with VFS): the Idx-th mutating file operation of the first
+	// attempt of block Height fails (I/O error, or disk full after a partial
+	// write): the block fails at an instant inside a statement or inside
+	// COMMIT, SQLite rolls back by itself, and images keep being taken.
+	DiskFail *c02Disk `json:"disk_fail,omitempty"`
+}
+
+type c02Disk struct {
+	Height  uint32 `json:"height"`
+	Idx     int    `json:"idx"` // among the write / sync / truncate / delete operations of the attempt
+	Full    bool   `json:"full,omitempty"`
+	Partial int    `json:"partial,omitempty"`
 }
 
 type sqlPoint struct {
@@ -49,7 +61,7 @@ func init() { Register(checkC02{}) }
 func (checkC02) ID() string    { return "C02" }
 func (checkC02) Level() string { return "fault_enumeration" }
 func (checkC02) Rule() string {
-	return "worlds drawn from the seed (all eras, outages, conversions, snapshots); within a world every statement-boundary crash point of the selected blocks is enumerated (quick: a sample of blocks per world, thorough: all blocks), and in half of the worlds (simulated-disk seam) additionally the instant before every file write / sync / truncate / delete SQLite performs inside those statements and inside COMMIT; a case is distinct if its SIGKILL image (all files of the database directory) differs by content hash; non-trivial = image taken inside an open block transaction after at least one write, or between COMMIT returning and the next statement"
+	return "worlds drawn from the seed (all eras, outages, conversions, snapshots); within a world every statement-boundary crash point of the selected blocks is enumerated (quick: a sample of blocks per world, thorough: all blocks), and in half of the worlds (simulated-disk seam) additionally the instant before every file write / sync / truncate / delete SQLite performs inside those statements and inside COMMIT; a third of the worlds fail one statement (or the COMMIT) or one file operation (I/O error, disk full after a partial write) of a block and keep taking images along the failure path and after the supervisor's restart; a case is distinct if its SIGKILL image (all files of the database directory) differs by content hash; non-trivial = image taken inside an open block transaction after at least one write, or between COMMIT returning and the next statement"
 }
 
 func (checkC02) Gen(seed uint64, tier string) (*Scenario, error) {
@@ -86,12 +98,22 @@ func (checkC02) Gen(seed uint64, tier string) (*Scenario, error) {
 	}
 	if rng.Intn(3) == 0 {
 		plan.FailAt = &sqlPoint{Height: w.Spec.First + uint32(rng.Intn(n)), Attempt: 1, Idx: 1 + rng.Intn(40)}
+		if rng.Intn(3) == 0 {
+			plan.FailAt.Idx = -1 // the COMMIT itself
+		}
 		plan.Heights = append(plan.Heights, plan.FailAt.Height)
 	}
 	if rng.Intn(5) == 0 {
 		plan.ResumeFor = 0
 	}
 	plan.VFS = rng.Intn(2) == 0
+	if plan.VFS && plan.FailAt == nil && rng.Intn(3) == 0 {
+		plan.DiskFail = &c02Disk{Height: w.Spec.First + uint32(rng.Intn(n)), Idx: rng.Intn(40), Full: rng.Intn(2) == 0}
+		if plan.DiskFail.Full && rng.Intn(2) == 0 {
+			plan.DiskFail.Partial = 512 * (1 + rng.Intn(7))
+		}
+		plan.Heights = append(plan.Heights, plan.DiskFail.Height)
+	}
 	pb, _ := json.Marshal(plan)
 	return &Scenario{Profile: &p, Spec: w.Spec, Plan: pb}, nil
 }
@@ -111,6 +133,12 @@ func (checkC02) ShrinkPlan(sc *Scenario) []json.RawMessage {
 	if p.FailAt != nil {
 		q := p
 		q.FailAt = nil
+		b, _ := json.Marshal(q)
+		out = append(out, b)
+	}
+	if p.DiskFail != nil {
+		q := p
+		q.DiskFail = nil
 		b, _ := json.Marshal(q)
 		out = append(out, b)
 	}
@@ -153,6 +181,7 @@ func (checkC02) Run(env *Env, sc *Scenario) (*Violation, error) {
 		cut := false
 		violHeight := uint32(0)
 		stopVFS := false
+		diskFailed := false
 		type pendingImg struct {
 			dir, where string
 			h          uint32
@@ -218,11 +247,32 @@ func (checkC02) Run(env *Env, sc *Scenario) (*Violation, error) {
 		curStmt := ""
 		if plan.VFS {
 			r.UseVFS = true
+			diskOps := map[int]int{} // attempt -> mutating operations seen
 			r.VFS = func(op *simvfs.Op) (int, int) {
 				switch op.Kind {
 				case simvfs.Write, simvfs.Sync, simvfs.Trunc, simvfs.Delete:
 				default:
 					return 0, 0
+				}
+				if d := plan.DiskFail; d != nil && !diskFailed && r.InBlock() && r.BlockHeight == d.Height && r.Attempt[d.Height] == 1 {
+					k := diskOps[1]
+					diskOps[1]++
+					if k == d.Idx {
+						diskFailed = true
+						env.Stats.Fault("disk_fault_"+op.Kind.String()+"_"+op.Role, 1)
+						switch {
+						case op.Kind == simvfs.Write && d.Full:
+							return simvfs.Full, d.Partial
+						case op.Kind == simvfs.Write:
+							return simvfs.IOErrWrite, 0
+						case op.Kind == simvfs.Sync:
+							return simvfs.IOErrFsync, 0
+						case op.Kind == simvfs.Trunc:
+							return simvfs.IOErrTruncate, 0
+						default:
+							return simvfs.IOErrDelete, 0
+						}
+					}
 				}
 				h := r.BlockHeight
 				if viol != nil || stopVFS || curStmt == "" || (len(want) > 0 && !want[h]) {
@@ -239,7 +289,8 @@ func (checkC02) Run(env *Env, sc *Scenario) (*Violation, error) {
 					return 0, 0
 				}
 				env.Stats.Probe("crash_inside_statement_before_" + op.Kind.String() + "_" + op.Role)
-				env.Stats.Seen("vimg:" + op.Kind.String() + ":" + op.Role + ":" + fp[:6])
+				_ = fp // the full hash depends on SQLite's random journal nonce: the case key uses the database content only
+				env.Stats.Seen("vimg:" + op.Kind.String() + ":" + op.Role + ":" + dirHash(img))
 				queue = append(queue, pendingImg{img, where, h})
 				return 0, 0
 			}
@@ -343,7 +394,7 @@ func (checkC02) Run(env *Env, sc *Scenario) (*Violation, error) {
 			if (ev.Op == "exec") && sim.IsWrite(ev.Query) {
 				defer func() { wrote = true }()
 			}
-			if f := plan.FailAt; f != nil && !failed && r.BlockHeight == f.Height && r.Attempt[f.Height] == f.Attempt && r.BlockStmt == f.Idx && ev.Op != "begin" && ev.Op != "rollback" {
+			if f := plan.FailAt; f != nil && !failed && r.BlockHeight == f.Height && r.Attempt[f.Height] == f.Attempt && (r.BlockStmt == f.Idx || (f.Idx < 0 && ev.Op == "commit")) && ev.Op != "begin" && ev.Op != "rollback" {
 				failed = true
 				failAttempt = r.Attempt[f.Height]
 				env.Stats.Fault("stmt_error", 1)
@@ -372,11 +423,26 @@ func (checkC02) Run(env *Env, sc *Scenario) (*Violation, error) {
 		env.Stats.Lifetimes++
 		r.StallBudget = 6
 		ok := r.RunTo(w.Tip())
-		env.Stats.Blocks += r.Commits
 		exit := r.Exit
+		for life := 0; !ok && r.Exit != "" && viol == nil && rerr == nil && (plan.FailAt != nil || plan.DiskFail != nil) && life < 3; life++ {
+			// the daemon gave up after the injected failure (log.Fatal): a supervisor
+			// restarts it on the surviving files, images keep being taken
+			env.Stats.Probe("daemon_exit_after_failure_then_restart")
+			r.Stop()
+			flush()
+			if err := r.Start(); err != nil {
+				viol = &Violation{Prop: "C02", Oracle: "restart-after-failed-block", Signature: "restart refused after a failed block: " + trunc(err.Error(), 60),
+					Detail: fmt.Sprintf("daemon exited (%s) after the injected failure and does not start again: %v", exit, err)}
+				break
+			}
+			env.Stats.Lifetimes++
+			ok = r.RunTo(w.Tip())
+			exit = r.Exit
+		}
+		env.Stats.Blocks += r.Commits
 		r.Stop()
 		flush()
-		if viol == nil && !ok && plan.FailAt == nil {
+		if viol == nil && !ok && plan.FailAt == nil && plan.DiskFail == nil {
 			rerr = fmt.Errorf("crash-pass replica did not reach the tip without faults (exit=%q)", exit)
 		}
 		if len(seen) > 1 {
